@@ -31,6 +31,15 @@ open Ruma Ruma.Auth Ruma.Ident Ruma.PowerLevels
 
 /-! ## Part 1 — levels: the helper holds what the rules read -/
 
+/-- **The helper can read whatever the rules can.** A power-levels content that the rules of some
+version read in full (`authWF`) is deserialized by the helper — so in the setting of the theorems
+below the requirement "the helper can deserialize the content" costs nothing beyond `authWF`. (The
+converse is false: the helper also accepts string levels in room version 10+ and the sequence form of
+`notifications`; such contents cannot have been authorized in the room.) -/
+theorem helper_reads_what_rules_read (rules : AuthRules) (c : Obj) (hwf : authWF rules c = true) :
+    (ofContent c).isSome = true :=
+  ofContent_isSome_of_authWF hwf
+
 /-- **Effective level.** For every rule set and every power-levels event whose content the rules of
 that version can read and the helper can deserialize: `for_user(u)` is the power level the
 authorization rules compute for `u` (`user_power_level`; with a power-levels event present the
@@ -515,6 +524,7 @@ theorem userCanSendStateStatement_false : ¬ UserCanSendStateStatement := by
 
 /-! ## Axiom audit (one line per property theorem) -/
 
+#print axioms helper_reads_what_rules_read
 #print axioms forUser_eq_auth_power
 #print axioms requiredLevels_eq_auth
 #print axioms userCanDo_iff_level
